@@ -7,6 +7,14 @@ import threading
 
 sys.path.insert(0, os.path.dirname(os.path.abspath(__file__)))
 
+# Transparent huge pages make copy-on-write faults in the forked workers copy 2 MB at a time (measured: half of the
+# CPU time went to the kernel); switch them off for this process tree before anything large is allocated.
+try:
+    import ctypes
+    ctypes.CDLL(None).prctl(41, 1, 0, 0, 0)          # PR_SET_THP_DISABLE
+except Exception:
+    pass
+
 
 def main():
     ap = argparse.ArgumentParser()
